@@ -437,6 +437,9 @@ type interp struct {
 	vars  map[types.Object]bitdom.Vec // scalar variables
 	bytes map[types.Object]string     // []byte variables: v[k] (k constant) yields the atoms "<name>[k]".0..7
 	table bool                        // whether lookups into tableCRC32 are allowed
+	// elem: `slice[index]` with exactly these objects stands for the current input byte (index-loop form of the fold)
+	elemSlice, elemIndex types.Object
+	elemVec              bitdom.Vec
 	// results
 	byteIdx map[int]bool
 }
@@ -591,6 +594,9 @@ func (it *interp) eval0(e ast.Expr, w int) (bitdom.Vec, error) {
 		if base != nil && it.table && base == types.Object(it.pr.tableObj) {
 			return it.lookup(x)
 		}
+		if base != nil && base == it.elemSlice && it.elemIndex != nil && it.pr.useOf(x.Index) == it.elemIndex {
+			return it.elemVec, nil
+		}
 		if name, ok := it.bytes[base]; ok && base != nil {
 			kv := info.Types[x.Index].Value
 			if kv == nil {
@@ -643,6 +649,10 @@ type foldShape struct {
 	val    types.Object // range value variable
 	assign *ast.AssignStmt
 	rhs    ast.Expr // step expression, non-nil only when it is the sole assignment to acc in the loop body
+	// index-loop form: `for i := 0; i < len(bs); i++ { ... bs[i] ... }`
+	slice, index types.Object
+	// locals defined (x := e, once each) before the assignment to the accumulator, in order
+	prelude []*ast.AssignStmt
 }
 
 func (pr *prover) f4() *foldShape {
@@ -670,9 +680,16 @@ func (pr *prover) f4() *foldShape {
 	list := fd.Body.List
 	var rng *ast.RangeStmt
 	var ret *ast.ReturnStmt
+	var idxLoop *ast.ForStmt
 	if len(list) > 0 {
 		rng, _ = list[0].(*ast.RangeStmt)
+		idxLoop, _ = list[0].(*ast.ForStmt)
 		ret, _ = list[len(list)-1].(*ast.ReturnStmt)
+	}
+	if idxLoop != nil && rng == nil {
+		// the same fold written with an index: for i := 0; i < len(bs); i++ { … bs[i] … }
+		pr.f4Index(sh, idxLoop, ret, acc, slice, len(list), k)
+		return sh
 	}
 	r.Check(len(list) == 2 && rng != nil && ret != nil, "F4", k("body-is-range-then-return"), pr.pos(fd.Body),
 		"the body is exactly: one range statement, one return statement",
@@ -698,13 +715,11 @@ func (pr *prover) f4() *foldShape {
 		r.Check(keyUnused && vobj != nil && isBasic(vobj.Type(), types.Uint8), "F4", k("range-key-unused-value-fresh"), pr.pos(rng),
 			"`for _, v := range`: the index is discarded and the element is a fresh byte variable", "the range clause is not of the form `for _, v := range ...` with a freshly defined byte variable")
 
-		var as *ast.AssignStmt
-		if len(rng.Body.List) == 1 {
-			as, _ = rng.Body.List[0].(*ast.AssignStmt)
-		}
-		single := as != nil && as.Tok == token.ASSIGN && len(as.Lhs) == 1 && len(as.Rhs) == 1
+		as, prelude, okBody := pr.foldBody(rng.Body)
+		sh.prelude = prelude
+		single := okBody && as != nil
 		r.Check(single, "F4", k("loop-body-single-assignment"), pr.pos(rng.Body),
-			"the loop body is one plain assignment `x = e`", fmt.Sprintf("the loop body (%d statements) is not a single plain assignment `x = e`", len(rng.Body.List)))
+			"the loop body is one plain assignment `x = e`, possibly after definitions `t := e'` of fresh locals", fmt.Sprintf("the loop body (%d statements) is not local definitions followed by a single plain assignment `x = e`", len(rng.Body.List)))
 		if !single {
 			r.Unknown("F4", k("assignment-target-is-accumulator"), pr.pos(rng.Body), "not checked: no single assignment")
 			r.Unknown("F4", k("only-allowed-objects"), pr.pos(rng.Body), "not checked: no single assignment")
@@ -728,7 +743,7 @@ func (pr *prover) f4() *foldShape {
 					o := p.Info.Uses[x]
 					switch o.(type) {
 					case *types.Var:
-						if o == acc || (o == vobj && vobj != nil) || o == types.Object(pr.tableObj) {
+						if o == acc || (o == vobj && vobj != nil) || o == types.Object(pr.tableObj) || pr.isPreludeLocal(sh, o) {
 							return true
 						}
 					case *types.TypeName:
@@ -757,6 +772,137 @@ func (pr *prover) f4() *foldShape {
 	return sh
 }
 
+// foldBody: zero or more `t := e` (one fresh variable each) followed by one plain assignment `x = e`.
+func (pr *prover) foldBody(body *ast.BlockStmt) (as *ast.AssignStmt, prelude []*ast.AssignStmt, ok bool) {
+	if body == nil || len(body.List) == 0 {
+		return nil, nil, false
+	}
+	for i, st := range body.List {
+		a, isA := st.(*ast.AssignStmt)
+		if !isA || len(a.Lhs) != 1 || len(a.Rhs) != 1 {
+			return nil, nil, false
+		}
+		if i == len(body.List)-1 {
+			if a.Tok != token.ASSIGN {
+				return nil, nil, false
+			}
+			return a, prelude, true
+		}
+		id, isID := a.Lhs[0].(*ast.Ident)
+		if a.Tok != token.DEFINE || !isID || pr.p.Info.Defs[id] == nil {
+			return nil, nil, false
+		}
+		prelude = append(prelude, a)
+	}
+	return nil, nil, false
+}
+
+func (pr *prover) isPreludeLocal(sh *foldShape, o types.Object) bool {
+	for _, def := range sh.prelude {
+		if id, ok := def.Lhs[0].(*ast.Ident); ok && pr.p.Info.Defs[id] == o {
+			return true
+		}
+	}
+	return false
+}
+
+// f4Index: the fold written as `for i := 0; i < len(bs); i++ { [t := e]* acc = step }; return acc`, where the body reads the
+// slice only as bs[i] and never assigns i or bs. Same theorem: the only loop-carried variable besides the index is acc.
+func (pr *prover) f4Index(sh *foldShape, loop *ast.ForStmt, ret *ast.ReturnStmt, acc, slice types.Object, nstmts int, k func(string) string) {
+	r, p := pr.r, pr.p
+	fd := sh.fd
+	r.Check(nstmts == 2 && ret != nil, "F4", k("body-is-range-then-return"), pr.pos(fd.Body),
+		"the body is exactly: one loop over the input, one return statement", fmt.Sprintf("the body has %d statements; want a loop followed by a return", nstmts))
+	// header
+	var idx types.Object
+	hdrOK := false
+	if init, ok := loop.Init.(*ast.AssignStmt); ok && init.Tok == token.DEFINE && len(init.Lhs) == 1 && len(init.Rhs) == 1 {
+		if id, ok := init.Lhs[0].(*ast.Ident); ok {
+			if c, isC := pr.constU64(init.Rhs[0]); isC && c == 0 {
+				idx = p.Info.Defs[id]
+			}
+		}
+	}
+	if idx != nil {
+		if cond, ok := loop.Cond.(*ast.BinaryExpr); ok && cond.Op == token.LSS && pr.useOf(cond.X) == idx {
+			if call, ok := unparen(cond.Y).(*ast.CallExpr); ok && len(call.Args) == 1 {
+				if fn, ok := call.Fun.(*ast.Ident); ok && fn.Name == "len" && p.Info.Uses[fn] == types.Universe.Lookup("len") && pr.useOf(call.Args[0]) == slice {
+					if post, ok := loop.Post.(*ast.IncDecStmt); ok && post.Tok == token.INC && pr.useOf(post.X) == idx {
+						hdrOK = true
+					}
+				}
+			}
+		}
+	}
+	r.Check(hdrOK, "F4", k("range-over-param1"), pr.pos(loop), "the loop visits every index of the []byte parameter once, in order: for i := 0; i < len(bs); i++",
+		"the loop header is not `for i := 0; i < len(<the []byte parameter>); i++`")
+	r.Check(hdrOK, "F4", k("range-key-unused-value-fresh"), pr.pos(loop), "the element is read as bs[i] (checked with the step expression)", "not checked: loop header not recognised")
+	as, prelude, okBody := pr.foldBody(loop.Body)
+	sh.prelude = prelude
+	single := okBody && as != nil && hdrOK
+	r.Check(single, "F4", k("loop-body-single-assignment"), pr.pos(loop.Body),
+		"the loop body is one plain assignment `x = e`, possibly after definitions `t := e'` of fresh locals", "the loop body is not local definitions followed by a single plain assignment `x = e`")
+	if !single {
+		r.Unknown("F4", k("assignment-target-is-accumulator"), pr.pos(loop.Body), "not checked: no single assignment")
+		r.Unknown("F4", k("only-allowed-objects"), pr.pos(loop.Body), "not checked: no single assignment")
+	} else {
+		sh.assign = as
+		target := pr.useOf(as.Lhs[0]) == acc
+		r.Check(target, "F4", k("assignment-target-is-accumulator"), pr.pos(as), "the assignment writes parameter 0 (object identity)", "the assignment target "+types.ExprString(as.Lhs[0])+" is not parameter 0")
+		if target {
+			sh.rhs = as.Rhs[0]
+			sh.slice, sh.index = slice, idx
+		}
+		// objects read by the body: acc, the table, prelude locals, constants, types; the slice and the index only as bs[i]
+		var offending []string
+		nIdent := 0
+		var walk func(n ast.Node) bool
+		walk = func(n ast.Node) bool {
+			switch x := n.(type) {
+			case *ast.FuncLit:
+				offending = append(offending, "function literal")
+				return false
+			case *ast.IndexExpr:
+				if pr.useOf(x.X) == slice && pr.useOf(x.Index) == idx {
+					nIdent++
+					return false // bs[i]: the current element
+				}
+			case *ast.Ident:
+				nIdent++
+				o := p.Info.Uses[x]
+				switch o.(type) {
+				case *types.Var:
+					if o == acc || o == types.Object(pr.tableObj) || pr.isPreludeLocal(sh, o) {
+						return true
+					}
+				case *types.TypeName, *types.Const:
+					return true
+				}
+				if o != nil {
+					offending = append(offending, x.Name)
+				}
+			}
+			return true
+		}
+		for _, def := range prelude {
+			ast.Inspect(def.Rhs[0], walk)
+		}
+		ast.Inspect(as.Rhs[0], walk)
+		sort.Strings(offending)
+		r.Check(len(offending) == 0 && nIdent > 0, "F4", k("only-allowed-objects"), pr.pos(as.Rhs[0]),
+			"the step reads only the accumulator, the current element bs[i], "+tableName+", its own locals, constants and type names",
+			"the step also refers to: "+strings.Join(offending, ", "))
+	}
+	if ret == nil {
+		r.Unknown("F4", k("returns-accumulator"), pr.pos(fd.Body), "not checked: the last statement is not a return")
+	} else {
+		r.Check(len(ret.Results) == 1 && pr.useOf(ret.Results[0]) == acc, "F4", k("returns-accumulator"), pr.pos(ret),
+			"the function returns parameter 0 itself, unmodified", "the return statement does not return exactly parameter 0")
+	}
+	r.Trivial("F4", k("chunking-invariance"), pr.pos(fd),
+		"theorem: with the facts above update(c, bs) = foldl step c bs, hence update(update(c, a), b) = update(c, a||b) for every split; step is total (F3: the index is < 256, no other partial operation)")
+}
+
 // ---------------------------------------------------------------------------------------------
 // F3: the step expression equals 8 bit-serial steps, bit by bit
 
@@ -764,7 +910,7 @@ func (pr *prover) f3(sh *foldShape) {
 	r := pr.r
 	n := 0
 	defer func() { r.Floor("F3", "state bits compared", n, 32) }()
-	if sh == nil || sh.rhs == nil || sh.val == nil {
+	if sh == nil || sh.rhs == nil || (sh.val == nil && sh.index == nil) {
 		pos := ""
 		if sh != nil {
 			pos = pr.pos(sh.fd)
@@ -773,8 +919,26 @@ func (pr *prover) f3(sh *foldShape) {
 		return
 	}
 	crc, b := bitdom.FromAtoms("crc", 32), bitdom.FromAtoms("b", 8)
-	it := &interp{pr: pr, table: true, vars: map[types.Object]bitdom.Vec{sh.acc: crc, sh.val: b}}
-	code, err := it.eval(sh.rhs)
+	it := &interp{pr: pr, table: true, vars: map[types.Object]bitdom.Vec{sh.acc: crc}}
+	if sh.val != nil {
+		it.vars[sh.val] = b
+	}
+	if sh.index != nil {
+		it.elemSlice, it.elemIndex, it.elemVec = sh.slice, sh.index, b
+	}
+	var err error
+	var code bitdom.Vec
+	for _, def := range sh.prelude {
+		v, e := it.eval(def.Rhs[0])
+		if e != nil {
+			err = e
+			break
+		}
+		it.vars[pr.p.Info.Defs[def.Lhs[0].(*ast.Ident)]] = v
+	}
+	if err == nil {
+		code, err = it.eval(sh.rhs)
+	}
 	if err != nil {
 		pos := pr.pos(sh.rhs)
 		if u, ok := err.(*unsupported); ok {
